@@ -324,6 +324,13 @@ def run_history(case, journal):
                 r1 = solve_once(prob, op[1])
                 fresh = M.op(prob_objective_for_fresh(M, mkobj, pool, m_obj), [cons[ci] for ci in m_cons])
                 r2 = solve_once(fresh, op[1])
+                if not lp_rank_ok(fresh):
+                    # the LP violates the solver's standing assumption Rank([G; A]) = n (e.g. two variables that
+                    # occur only in one common row): lp's answer then depends on the column order and says
+                    # nothing about the bookkeeping
+                    bump('solves_rank_deficient_lp_inconclusive')
+                    journal.end_op(i)
+                    continue
                 log.add('solve', r1[:2], r2[:2])
                 # a rank-deficient LP ends in ValueError('Rank...') or 'unknown' depending on column order: not decisive
                 if r1[:2] == ('exc', 'ValueError') and 'Rank(' in r1[2]:
@@ -359,6 +366,31 @@ def run_history(case, journal):
         journal.end_op(i)
     stats['_nontrivial'] = 1 if (effective_edits >= 1 and nsolve >= 1) else 0
     return {'violation': None, 'digest': log.digest(), 'stats': stats}
+
+
+def lp_rank_ok(prob):
+    """Rank(A) = p and Rank([G; A]) = n for the LP in matrix form (pure-Python elimination)"""
+    from cvxopt import matrix
+    from simkit import cone_ref as CR
+    try:
+        t = prob._inmatrixform('dense')
+        lp1 = prob if t is None else t[0]
+        vs_ = lp1.variables()
+        if len(vs_) != 1 or not lp1._inequalities:
+            return True
+        x = vs_[0]
+        G = matrix(lp1._inequalities[0]._f._linear._coeff[x])
+        rows = [[G[i, j] for j in range(G.size[1])] for i in range(G.size[0])]
+        arows = []
+        if lp1._equalities:
+            A = matrix(lp1._equalities[0]._f._linear._coeff[x])
+            arows = [[A[i, j] for j in range(A.size[1])] for i in range(A.size[0])]
+        n = G.size[1]
+        rk, _ = CR.numeric_rank(rows + arows, tol=1e-7)
+        rka, _ = CR.numeric_rank(arows, tol=1e-7) if arows else (0, 1.0)
+        return rk == n and rka == len(arows)
+    except Exception:   # noqa — the guard must never decide a verdict
+        return True
 
 
 def prob_objective_for_fresh(M, mkobj, pool, m_obj):
